@@ -29,7 +29,8 @@ REQUIRED = {"deliveries": {"quick": 2500, "thorough": 90000},
             "completed_without_value": {"quick": 100, "thorough": 3000},
             "error_after_value": {"quick": 80, "thorough": 3000}}
 PROFILE_W = {  # termination must happen for anything to be delivered: heavier on completion than C20
-    "sub": 0.30, "unsub": 0.10, "next": 0.30, "error": 0.08, "completed": 0.18, "dispose": 0.04}
+    "sub": 0.30, "unsub": 0.10, "next": 0.30, "error": 0.08, "completed": 0.18, "dispose": 0.04,
+            "runs:free": {"quick": 1000, "thorough": 20000}, "free_injected_yields": {"quick": 3000, "thorough": 60000}}
 
 
 def units(tier: str, seed: int) -> list[dict]:
